@@ -297,8 +297,43 @@ def run_check(prop, tier, seed, replay=None):
     cov = dict(states=0, transitions=0, traces_validated_against_impl=0, samples=[], impl_steps_executed=0,
                drift_lines=0, configs=[], model_findings=[], exhaustive=True)
 
+    mach_errors = []
+
+    def stage(scripts, tag):
+        """Execute + validate one stage.  A failure of the tooling on one shard must not lose the
+        verdicts of the other shards (or of earlier stages): fall back to shard-by-shard."""
+        try:
+            return [vlib.exec_and_validate(variant, scripts, conf['props'], work, tag, exe_name='props_exec', module='OVMPropsTrace.tla')]
+        except MachineryError as e:
+            mach_errors.append('%s: %s' % (tag, e))
+            log('%s stage %s: tooling failure, retrying shard by shard: %s' % (prop, tag, str(e)[:300]))
+        out = []
+        for i, sc in enumerate(scripts):
+            try:
+                out.append(vlib.exec_and_validate(variant, [sc], conf['props'], work, '%s-s%d' % (tag, i), exe_name='props_exec',
+                                                  module='OVMPropsTrace.tla'))
+            except MachineryError as e:
+                mach_errors.append('%s shard %d: %s' % (tag, i, e))
+        return out
+
+    def merged(aggs):
+        m = dict(lines=0, checked=0, bad=0, drift=0, failures=[], crashes=[], drifts=[])
+        for a in aggs:
+            for k in ('lines', 'checked', 'bad', 'drift'):
+                m[k] += a[k]
+            for k in ('failures', 'crashes', 'drifts'):
+                m[k] += a[k]
+        return m
+
     def absorb(agg):
         fix_crash_names(agg)
+        for f in agg['failures']:
+            if f.get('x', 0) < 0 and f.get('trace'):
+                # an EVAL finding of vlib.run_validate carries no execution number: take it from the recorded line
+                try:
+                    f['x'] = json.loads(open(f['trace']).read().splitlines()[f['line'] - 1])['x']
+                except (OSError, IndexError, KeyError, ValueError):
+                    pass
         failures.extend(agg['failures']); crashes.extend(agg['crashes']); drifts.extend(agg['drifts'])
         cov['traces_validated_against_impl'] += agg['checked']
         cov['impl_steps_executed'] += agg['lines']
@@ -306,7 +341,7 @@ def run_check(prop, tier, seed, replay=None):
 
     if replay:
         txt = ''.join(l for l in open(replay) if not l.startswith('#'))
-        agg = vlib.exec_and_validate(variant, [txt], conf['props'], work, 'replay', exe_name='props_exec', module='OVMPropsTrace.tla')
+        agg = merged(stage([txt], 'replay'))
         absorb(agg)
         cov['states'] = cov['transitions'] = max(1, agg['checked'])
         cov['samples'].append(dict(replay=replay))
@@ -318,7 +353,12 @@ def run_check(prop, tier, seed, replay=None):
                 continue
             cp = os.path.join(work, 'mc%d.cfg' % n)
             write_cfg(cp, mc, prop, 'tree')
-            r = run_tlc(cp, work, workers)
+            try:
+                r = run_tlc(cp, work, workers)
+            except MachineryError as e:
+                mach_errors.append('mc%d %s: %s' % (n, mc['name'], e))
+                log('%s mc%d %s: tooling failure: %s' % (prop, n, mc['name'], str(e)[:300]))
+                continue
             log('%s mc%d %s: %d generated, %d distinct, %d transitions emitted, %d judged bad by the model, %.0fs' %
                 (prop, n, mc['name'], r['stats']['generated'], r['stats']['distinct'], len(r['transitions']), len(r['mbad']), r['wall']))
             cov['states'] += r['stats']['distinct']; cov['transitions'] += len(r['transitions'])
@@ -327,12 +367,12 @@ def run_check(prop, tier, seed, replay=None):
             mfind += r['mbad']
             o2, t2 = split_executions(r['orgs'], r['transitions'])
             # one validator JVM per shard costs seconds of start-up: few shards for small trees
-            nsh = max(1, min(vlib.NCPU, len(t2) // 1200))
+            nsh = max(1, min(vlib.NCPU, len(t2) // 400))
             scripts = vlib.tree_scripts(o2, t2, '', nsh, mesh='props', stamp=False)
             if r['transitions'] and len(cov['samples']) < 4:
                 k, p = r['transitions'][len(r['transitions']) // 2]
                 cov['samples'].append(dict(config=mc['name'], seed_script=r['orgs'][k], calls=p))
-            agg = vlib.exec_and_validate(variant, scripts, conf['props'], work, 'e%d' % n, exe_name='props_exec', module='OVMPropsTrace.tla')
+            agg = merged(stage(scripts, 'e%d' % n))
             log('%s e%d: %d lines, %d checked, %d bad, %d drift, %d crashes' %
                 (prop, n, agg['lines'], agg['checked'], agg['bad'], agg['drift'], len(agg['crashes'])))
             absorb(agg)
@@ -343,14 +383,18 @@ def run_check(prop, tier, seed, replay=None):
                     **{k: v for k, v in sim.items() if k != 'ops'})
             cp = os.path.join(work, 'sim.cfg')
             write_cfg(cp, c, prop, 'sim')
-            r = run_tlc(cp, work, 1, simulate=dict(num=num, depth=depth, seed=seed))
+            try:
+                r = run_tlc(cp, work, 1, simulate=dict(num=num, depth=depth, seed=seed))
+            except MachineryError as e:
+                mach_errors.append('sim: %s' % e)
+                r = dict(sims=[], mbad=[])
             hist = r['sims']
             mfind += r['mbad']
             scripts = [vlib.linear_script(h['script'] + h['path'], '', mesh='props', stamp_every=True, silent_prefix=len(h['script']))
                        for h in hist]
             nsh = max(1, min(vlib.NCPU, sum(len(h['path']) for h in hist) // 600))
             shards = [''.join(scripts[i::nsh]) for i in range(nsh) if scripts[i::nsh]]
-            agg = vlib.exec_and_validate(variant, shards, conf['props'], work, 'r', exe_name='props_exec', module='OVMPropsTrace.tla')
+            agg = merged(stage(shards, 'r')) if shards else merged([])
             log('%s sim: %d histories, %d lines, %d checked, %d bad, %d drift, %d crashes' %
                 (prop, len(hist), agg['lines'], agg['checked'], agg['bad'], agg['drift'], len(agg['crashes'])))
             absorb(agg)
@@ -389,7 +433,11 @@ def run_check(prop, tier, seed, replay=None):
             p, again = (replay or f.get('script', '')), True
         else:
             nconf += 1
-            p, again = replay_confirms(prop, conf['props'], variant, f, work, nconf)
+            try:
+                p, again = replay_confirms(prop, conf['props'], variant, f, work, nconf)
+            except MachineryError as e:
+                mach_errors.append('confirm %s: %s' % (sig['msg'], e))
+                p, again = f.get('script', ''), False
         if not again:
             flaky += 1
             log('  not reproduced on re-execution (ignored): %s %s' % (sig['msg'], json.dumps(f.get('path'))[:300]))
@@ -404,6 +452,7 @@ def run_check(prop, tier, seed, replay=None):
     for what, n in sorted(known_seen.items()):
         print('KNOWN-FINDING: property=%s %s' % (prop, what))
         log('  (seen on %d replayed steps)' % n)
+    cov['tooling_failures'] = [m[:500] for m in mach_errors]
     cov['drift_samples'] = drifts[:5]
     cov['known_findings_seen'] = sum(known_seen.values())
     cov['not_reproduced'] = flaky
@@ -415,6 +464,9 @@ def run_check(prop, tier, seed, replay=None):
                          'the executor\'s projection of the world (harness/props_exec.cc: dump_world) is trusted; storage identity is a weak_ptr table kept by the executor',
                          'memory safety of the replayed interleavings is observed by ASan/UBSan/_GLIBCXX_ASSERTIONS, not derived',
                          'bounded: universe, seeds, alphabets and depths listed in coverage.configs; beyond them only random histories'])
+    if rc == 0 and mach_errors:
+        # nothing observed violates the property, but part of the exploration did not run: not a pass
+        raise MachineryError('; '.join(mach_errors)[:3000])
     if rc == 0 and not os.environ.get('VERIF_KEEP'):
         shutil.rmtree(work, ignore_errors=True)
     return rc
